@@ -66,9 +66,11 @@ class QueryPlugin(Plugin):
         dl = acc.setdefault("delimiters", {})
         dl[d] = dl.get(d, 0) + 1
         if len(obs) > 1 and obs[1]:
-            errs = sum(1 for o in obs[1] if o and o[0] == 1)
+            seen = [o for o in obs[1] if o != qprops.WILD]
+            acc["answers_compared"] = acc.get("answers_compared", 0) + len(seen)
+            errs = sum(1 for o in seen if o and o[0] == 1)
             acc["lib_errors_observed"] = acc.get("lib_errors_observed", 0) + errs
-            none = sum(1 for o in obs[1] if o and o[0] == 0 and o[1] is None)
+            none = sum(1 for o in seen if o and o[0] == 0 and o[1] is None)
             acc["none_results"] = acc.get("none_results", 0) + none
 
     def sample(self, case, obs):
@@ -97,13 +99,26 @@ class QueryPlugin(Plugin):
         if not model or len(obs) < 2 or len(model) < 2:
             return {"constructor": {"impl": plain(obs[:1]), "model": plain(model[:1]) if model else None}}
         for n, a, b in zip(names, obs[1], model[1]):
-            if a != b:
+            if a != b and a != qprops.WILD:
                 out.append({"query": n, "impl": plain(a), "model": plain(b)})
         return out[:12]
 
 
+# the methods each property speaks about: only their answers are requested and compared
+KEEPS = {
+    "C01": {"parse_uri", "compress", "is_uri", "compress_strict"},
+    "C02": {"expand", "expand_pair", "expand_reference", "expand_all", "expand_pair_all", "is_curie", "parse_curie", "expand_strict"},
+    "C03": {"compress", "expand", "expand_all", "standardize_uri", "standardize_curie", "is_uri"},
+    "C06": {"standardize_prefix", "standardize_curie", "standardize_uri", "expand", "compress"},
+    "C07": {"is_uri", "is_curie", "parse", "compress_or_standardize", "expand_or_standardize", "format_curie", "compress_strict",
+            "expand_strict", "compress", "parse_uri", "expand", "parse_curie"},
+    "C08": {"compress", "expand", "compress_or_standardize", "expand_or_standardize", "standardize_prefix", "standardize_curie",
+            "standardize_uri", "parse_uri", "parse_curie", "parse", "expand_all", "expand_pair", "expand_reference", "expand_pair_all"},
+}
+
+
 def _mk(pid, prop):
-    return type(pid, (QueryPlugin,), {"pid": pid, "prop": prop})
+    return type(pid, (QueryPlugin,), {"pid": pid, "prop": prop, "keep": KEEPS[pid]})
 
 
 C01 = _mk("C01", 1)
